@@ -32,6 +32,8 @@ struct Case {
     sigs: Vec<Sig>,
     header: Vec<&'static str>,
     declare_v: bool,
+    /// number of leading one-bit columns written as one bits(n, 5) entry
+    bits_prefix: usize,
 }
 
 fn cases() -> Vec<Case> {
@@ -42,12 +44,14 @@ fn cases() -> Vec<Case> {
             sigs: vec![Sig::inp("A", bits, 0), Sig::out("Q", bits), Sig::bidir("D", bits, V::Num(0)), Sig::out("R", 64)],
             header: vec!["A", "Q", "D", "D_out", "V"],
             declare_v: true,
+            bits_prefix: 0,
         });
         out.push(Case {
             name: format!("width {bits}: other signal order, inputs with default Z"),
             sigs: vec![Sig::out("R", 64), Sig::bidir("D", bits, V::Z), Sig::out("Q", bits), Sig::inp_z("A", bits)],
             header: vec!["D_out", "V", "Q", "A", "D"],
             declare_v: true,
+            bits_prefix: 0,
         });
     }
     // one column bound to two signals of different widths
@@ -57,12 +61,24 @@ fn cases() -> Vec<Case> {
             sigs: vec![Sig::bidir("A", b1, V::Num(0)), Sig::out("A_out", b2), Sig::out("R", 64)],
             header: vec!["A", "A_out"],
             declare_v: false,
+            bits_prefix: 0,
         });
         out.push(Case {
             name: format!("column A_out drives In A_out({b2}) and is expected by Bidir A({b1})"),
             sigs: vec![Sig::inp("A_out", b2, 0), Sig::out("R", 64), Sig::bidir("A", b1, V::Num(0))],
             header: vec!["A_out", "A"],
             declare_v: false,
+            bits_prefix: 0,
+        });
+    }
+    // values after a bits(n, ..) entry that spans n columns: columns and entries are out of step
+    for bits in [3usize, 8, 32, 63, 64] {
+        out.push(Case {
+            name: format!("width {bits} after bits(4,5) over four one-bit inputs"),
+            sigs: vec![Sig::inp("A3", 1, 0), Sig::inp("A2", 1, 0), Sig::inp("A1", 1, 0), Sig::inp("A0", 1, 0), Sig::inp("D", bits, 0), Sig::out("Q", bits), Sig::out("R", 64)],
+            header: vec!["A3", "A2", "A1", "A0", "D", "Q"],
+            declare_v: false,
+            bits_prefix: 4,
         });
     }
     out
@@ -73,11 +89,17 @@ pub fn run(tier: Tier, seed: u64) -> i32 {
     let deadline = Deadline::new(tier.wall_cap());
     let values = boundary_values();
     let cases = cases();
-    let st = par_range("cases (widths 1..=64 x 2 signal orders, plus 16 double-bound column cases) x 2 value paths", cases.len() as u64 * 2, &deadline, |idx, st| {
+    let st = par_range("cases (widths 1..=64 x 2 signal orders, 16 double-bound column cases, 5 cases behind a bits(4,..) entry) x 2 value paths", cases.len() as u64 * 2, &deadline, |idx, st| {
         let case = &cases[(idx / 2) as usize];
         let via_device = idx % 2 == 0;
         let header: Vec<String> = case.header.iter().map(|s| s.to_string()).collect();
-        let ncol = header.len();
+        let ncol = header.len() - case.bits_prefix;
+        let prefix: Vec<Entry> = if case.bits_prefix > 0 { vec![Entry::Bits(case.bits_prefix as u8, lit(5))] } else { vec![] };
+        let with_prefix = |mut es: Vec<Entry>| -> Vec<Entry> {
+            let mut v = prefix.clone();
+            v.append(&mut es);
+            v
+        };
         let mut body = vec![];
         if case.declare_v {
             body.push(Stmt::Declare("V".into(), lit(0)));
@@ -87,14 +109,14 @@ pub fn run(tier: Tier, seed: u64) -> i32 {
         let mut script: Vec<Step> = vec![];
         let ans = |r: i64| -> Answer { case.sigs.iter().filter(|s| s.is_out()).map(|s| (s.name.clone(), V::Num(if s.name == "R" { r } else { 1 }))).collect() };
         if via_device {
-            body.push(Stmt::Repeat(lit(vals.len() as i64), (0..ncol).map(|_| Entry::Paren(name("R"))).collect()));
+            body.push(Stmt::Repeat(lit(vals.len() as i64), with_prefix((0..ncol).map(|_| Entry::Paren(name("R"))).collect())));
             for v in &vals {
                 script.push(Step::Ans(ans(*v)));
             }
             script.push(Step::Ans(ans(0)));
         } else {
             for v in &vals {
-                body.push(Stmt::Row((0..ncol).map(|_| Entry::Lit(*v, Radix::Hex)).collect()));
+                body.push(Stmt::Row(with_prefix((0..ncol).map(|_| Entry::Lit(*v, Radix::Hex)).collect())));
             }
             for _ in 0..=vals.len() {
                 script.push(Step::Ans(ans(0)));
@@ -102,8 +124,8 @@ pub fn run(tier: Tier, seed: u64) -> i32 {
         }
         // Z and X pass through unchanged
         let bound = bind(&header, &case.sigs, &if case.declare_v { vec![("V".to_string(), lit(0))] } else { vec![] });
-        body.push(Stmt::Row((0..ncol).map(|_| Entry::Z).collect()));
-        body.push(Stmt::Row((0..ncol).map(|j| if bound.input_col[j] { Entry::Z } else { Entry::X }).collect()));
+        body.push(Stmt::Row(with_prefix((0..ncol).map(|_| Entry::Z).collect())));
+        body.push(Stmt::Row(with_prefix((0..ncol).map(|j| if bound.input_col[j + case.bits_prefix] { Entry::Z } else { Entry::X }).collect())));
         script.push(Step::Ans(ans(0)));
         script.push(Step::Ans(ans(0)));
         let prog = Program { header: header.clone(), body };
